@@ -252,6 +252,52 @@ def main():
             check_file(p, inp, src[win[0]:win[1], win[2]:win[3]], (win[1] - win[0], win[3] - win[2], ns), hsrc)
             R.case(('conv-window', n_il, n_xl, ns, bpv) + tuple(win), sample=inp)
             R.count('writer:segy window')
+        # ---------------- the cropper with a SAMPLE range strictly inside the sample axis (16 bit -> z-blocks of 128 samples), over
+        # sources of every detection mode: with 'exhaustive' every field (the sample count 115 too) is a stored array, with
+        # 'thorough' a field that varies (here also 115: a few traces state another count) is.  The cropped file must
+        # conform like any other: table names == stated array count, file length, every array at its derived offset equal to
+        # the source headers of the kept traces.
+        zcases = [('exhaustive', (5, 6, 260), (0, 5), (0, 6), (128, 256), False), ('thorough', (8, 9, 300), (4, 8), (0, 8), (0, 128), True),
+                  ('heuristic', (6, 5, 385), (0, 4), (0, 5), (256, 384), False)]
+        if thorough:
+            zcases += [('exhaustive', (9, 4, 300), (4, 9), (0, 4), (128, 300), True), ('thorough', (4, 4, 257), (0, 4), (0, 4), (128, 256), False),
+                       ('heuristic', (5, 9, 260), (0, 5), (4, 8), (128, 256), True)]
+        for zi, (mode, (n_il, n_xl, ns), ir, xr, zr, vary115) in enumerate(zcases):
+            src = rnd_cube(rng, (n_il, n_xl, ns))
+            idx += 1
+            p = os.path.join(d, f'z{idx}.sgz'); sgy = os.path.join(d, f'z{idx}.sgy'); q = os.path.join(d, f'z{idx}_crop.sgz')
+            il = list(range(3, 3 + 2 * n_il, 2)); xl = list(range(100, 100 + 3 * n_xl, 3))
+            inp = {'writer': 'segy -> crop (sample range inside the sample axis)', 'shape': [n_il, n_xl, ns], 'bits_per_voxel': 16, 'header_detection': mode,
+                   'box': {'iline_index_range': list(ir), 'xline_index_range': list(xr), 'zslices_index_range': list(zr)},
+                   'TRACE_SAMPLE_COUNT (115)': 'differs in some traces' if vary115 else 'constant'}
+            try:
+                mk_segy(sgy, src, il, xl, hdr=(lambda t, i, x: {segyio.TraceField.TRACE_SAMPLE_COUNT: ns - (1 if (t % 3 == 1) else 0),
+                                                                segyio.TraceField.SourceX: 40000 - 13 * t}) if vary115 else None)
+                write_segy_sgz(sgy, p, bpv=16, blockshape=(4, 4, -1), header_detection=mode)
+                with segyio.open(sgy) as f:
+                    grids = {int(k): f.attributes(int(k))[:].astype(np.int32).reshape(n_il, n_xl) for k in segyio.tracefield.keys.values()}
+                hsrc_all = lambda key, grids=grids: grids[key].reshape(-1) if key in grids else None
+                hsrc_crop = lambda key, grids=grids: np.ascontiguousarray(grids[key][ir[0]:ir[1], xr[0]:xr[1]]).reshape(-1) if key in grids else None
+            except Exception as e:
+                R.violation('oracle', inp, f'valid input: conversion raised {type(e).__name__}: {e}')
+                continue
+            check_file(p, dict(inp, writer='segy'), src, (n_il, n_xl, ns), hsrc_all)
+            try:
+                with SgzCropper(p) as c:
+                    quiet(c.write_cropped_file_by_indexes, q, iline_index_range=ir, xline_index_range=xr, zslices_index_range=zr)
+            except Exception as e:
+                R.violation('oracle', inp, f'valid crop (whole z-blocks, whole units): cropper raised {type(e).__name__}: {e}')
+                continue
+            spc = check_file(q, inp, None, (ir[1] - ir[0], xr[1] - xr[0], zr[1] - zr[0]), hsrc_crop)
+            if spc is not None:
+                try:
+                    with SgzReader(p) as r0, SgzReader(q) as r1:
+                        if not bits_equal(r1.read_volume(), r0.read_volume()[ir[0]:ir[1], xr[0]:xr[1], zr[0]:zr[1]]):
+                            R.violation('oracle', inp, 'the cropped file does not decode to the box of the source file')
+                except Exception as e:
+                    R.violation('oracle', inp, f'reader failed on a cropped file: {type(e).__name__}: {e}')
+            R.case(('crop-z', mode, n_il, n_xl, ns, vary115) + tuple(ir) + tuple(xr) + tuple(zr), sample=inp)
+            R.count('writer:crop (sample range)')
         # ---------------- format versions on both sides of every gate (0.1.7: interval in microseconds; 0.2.2: padded footer +
         # trace count field), releases and development builds.  A file AS A LIBRARY OF VERSION v WROTE IT is built from a
         # current file by the specification alone (as_version below); the reader must report what was written, and whatever
